@@ -80,6 +80,24 @@ def remove_uuid_stub():
 
 # --------------------------------------------------------------------------
 
+OVERRIDES = {}
+
+
+class VerifPatches(object):
+    """A second patch layer on top of CrossHair's Patched(): inside one of our
+    overrides a call of the original builtin resolves to CrossHair's own patch."""
+
+    def __enter__(self):
+        from crosshair.tracers import COMPOSITE_TRACER
+        COMPOSITE_TRACER.patching_module.add(OVERRIDES)
+        return self
+
+    def __exit__(self, *a):
+        from crosshair.tracers import COMPOSITE_TRACER
+        COMPOSITE_TRACER.patching_module.pop(OVERRIDES)
+        return False
+
+
 def install_engine_patches():
     """Register the overrides with CrossHair (call once per process)."""
     import crosshair.core_and_libs  # noqa: F401  (registers the default patches)
@@ -90,9 +108,9 @@ def install_engine_patches():
     from crosshair.tracers import NoTracing, frame_stack_write
 
     if not chcore._PATCH_REGISTRATIONS:
-        chcore._make_registrations() if hasattr(chcore, "_make_registrations") else None
         from crosshair.core_and_libs import _make_registrations
         _make_registrations()
+    overrides = OVERRIDES
 
     def _render_s(arg):
         return arg if isinstance(arg, (str, AnySymbolicStr)) else str(arg)
@@ -156,9 +174,7 @@ def install_engine_patches():
         result = result + template[pos:]
         return result
 
-    chcore._PATCH_REGISTRATIONS[str.__mod__] = sym_mod
-
-    orig_format = chcore._PATCH_REGISTRATIONS.get(str.format)
+    overrides[str.__mod__] = sym_mod
 
     def sym_format(self, /, *a, **kw):
         with NoTracing():
@@ -167,27 +183,23 @@ def install_engine_patches():
             STATE["site_hits"] += 1
             with NoTracing():
                 return re.sub(r"\{[^{}]*\}", PLACEHOLDER, realize(self))
-        if orig_format is not None:
-            return orig_format(self, *a, **kw)
-        return realize(self).format(*deep_realize(a), **deep_realize(kw))
+        return self.format(*a, **kw)    # previous layer (CrossHair's own str.format)
 
-    chcore._PATCH_REGISTRATIONS[str.format] = sym_format
+    overrides[str.format] = sym_format
 
     def stub_print(*a, **kw):
         STATE["prints"] += 1
 
-    chcore._PATCH_REGISTRATIONS[print] = stub_print
+    overrides[print] = stub_print
 
     def stub_warn(*a, **kw):
         STATE["warnings_emitted"] += 1
 
-    chcore._PATCH_REGISTRATIONS[warnings.warn] = stub_warn
+    overrides[warnings.warn] = stub_warn
 
     # str()/repr() of a plain tuple or list that holds proxies: the C-level
     # tuple repr cannot take a symbolic element repr; render element-wise.
     from crosshair.core import CrossHairValue
-    orig_str = chcore._PATCH_REGISTRATIONS[str]
-    orig_repr = chcore._PATCH_REGISTRATIONS[repr]
 
     def _has_proxy(seq):
         return any(isinstance(x, CrossHairValue) for x in seq)
@@ -211,25 +223,22 @@ def install_engine_patches():
             special = type(obj) in (tuple, list) and _has_proxy(obj)
         if special:
             return _render_seq(obj)
-        return orig_repr(obj)
+        return repr(obj)    # previous layer
 
     def sym_str(*a):
         with NoTracing():
             special = len(a) == 1 and type(a[0]) in (tuple, list) and _has_proxy(a[0])
         if special:
             return _render_seq(a[0])
-        return orig_str(*a)
+        return str(*a)    # previous layer
 
-    chcore._PATCH_REGISTRATIONS[str] = sym_str
-    chcore._PATCH_REGISTRATIONS[repr] = sym_repr
+    overrides[str] = sym_str
+    overrides[repr] = sym_repr
 
     # getattr/setattr/hasattr: CrossHair runs them with tracing OFF, so a Python
     # property getter/setter reached through them would see raw proxies without
     # the engine (isinstance(SymbolicInt, int) is False there).  For objects of
     # the repository keep tracing on.
-    orig_getattr = chcore._PATCH_REGISTRATIONS[getattr]
-    orig_setattr = chcore._PATCH_REGISTRATIONS[setattr]
-    orig_hasattr = chcore._PATCH_REGISTRATIONS[hasattr]
     _missing = object()
 
     def _is_repo_obj(obj):
@@ -243,8 +252,8 @@ def install_engine_patches():
                 name = realize(name)
         if not repo_obj:
             if default is _missing:
-                return orig_getattr(obj, name)
-            return orig_getattr(obj, name, default)
+                return getattr(obj, name)    # previous layer
+            return getattr(obj, name, default)
         try:
             return type(obj).__getattribute__(obj, name)
         except AttributeError:
@@ -267,23 +276,23 @@ def install_engine_patches():
             if repo_obj and not isinstance(name, str):
                 name = realize(name)
         if not repo_obj:
-            return orig_setattr(obj, name, value)
+            return setattr(obj, name, value)    # previous layer
         return type(obj).__setattr__(obj, name, value)
 
     def sym_hasattr(obj, name):
         with NoTracing():
             repo_obj = _is_repo_obj(obj)
         if not repo_obj:
-            return orig_hasattr(obj, name)
+            return hasattr(obj, name)    # previous layer
         try:
             sym_getattr(obj, name)
             return True
         except AttributeError:
             return False
 
-    chcore._PATCH_REGISTRATIONS[getattr] = sym_getattr
-    chcore._PATCH_REGISTRATIONS[setattr] = sym_setattr
-    chcore._PATCH_REGISTRATIONS[hasattr] = sym_hasattr
+    overrides[getattr] = sym_getattr
+    overrides[setattr] = sym_setattr
+    overrides[hasattr] = sym_hasattr
 
     # f-string bytecode (CPython compiles "..%s.." % (a, b) with a literal
     # template into FORMAT_VALUE/BUILD_STRING): abstract at message sites.
